@@ -575,41 +575,34 @@ theorem plan_listParts (b k uid : Bytes) :
 
 theorem completeCheck_allowed {Q : Touch → Prop} (u : Bytes) (ps : List Int) :
     (∀ n ∈ ps, ∀ pp, uploadPartPath e u n = .ok pp → ∀ a, Q ⟨a, .path pp⟩) →
-    ∀ (cnt : Int) (acc : List Touch) (pps : List Bytes), (∀ t ∈ acc, Q t) → (∀ pp ∈ pps, ∀ a, Q ⟨a, .path pp⟩) →
-      (∀ pl, completeCheck e u ps cnt acc pps = .error pl → ∀ t ∈ pl.touches, Q t) ∧
-      (∀ t2 pps', completeCheck e u ps cnt acc pps = .ok (t2, pps') →
+    ∀ (acc : List Touch) (pps : List Bytes), (∀ t ∈ acc, Q t) → (∀ pp ∈ pps, ∀ a, Q ⟨a, .path pp⟩) →
+      (∀ pl, completeCheck e u ps acc pps = .error pl → ∀ t ∈ pl.touches, Q t) ∧
+      (∀ t2 pps', completeCheck e u ps acc pps = .ok (t2, pps') →
         (∀ t ∈ t2, Q t) ∧ ∀ pp ∈ pps', ∀ a, Q ⟨a, .path pp⟩) := by
   induction ps with
   | nil =>
-    intro _ cnt acc pps ha hpps
+    intro _ acc pps ha hpps
     refine ⟨fun pl h => ?_, fun t2 pps' h => ?_⟩
     · simp [completeCheck] at h
     · simp only [completeCheck, Except.ok.injEq, Prod.mk.injEq] at h
       obtain ⟨rfl, rfl⟩ := h
       exact ⟨ha, hpps⟩
   | cons n rest ih =>
-    intro hp cnt acc pps ha hpps
-    by_cases hn : n ≠ cnt + 1
-    · simp only [completeCheck]
-      rw [if_pos hn]
+    intro hp acc pps ha hpps
+    simp only [completeCheck]
+    cases hpp : uploadPartPath e u n with
+    | error x =>
       refine ⟨fun pl h => ?_, fun _ _ h => by cases h⟩
       cases h
       exact ha
-    · simp only [completeCheck]
-      rw [if_neg hn]
-      cases hpp : uploadPartPath e u n with
-      | error x =>
-        refine ⟨fun pl h => ?_, fun _ _ h => by cases h⟩
-        cases h
-        exact ha
-      | ok pp =>
-        have hq := hp n (by simp) pp hpp
-        refine ih (fun m hm => hp m (List.mem_cons_of_mem _ hm)) _ _ _
-          (forall_append ha (forall_cons (hq _) forall_nil)) ?_
-        intro pp' hpp' a
-        rcases List.mem_append.mp hpp' with h | h
-        · exact hpps pp' h a
-        · simp at h; subst h; exact hq a
+    | ok pp =>
+      have hq := hp n (by simp) pp hpp
+      refine ih (fun m hm => hp m (List.mem_cons_of_mem _ hm)) _ _
+        (forall_append ha (forall_cons (hq _) forall_nil)) ?_
+      intro pp' hpp' a
+      rcases List.mem_append.mp hpp' with h | h
+      · exact hpps pp' h a
+      · simp at h; subst h; exact hq a
 
 theorem forall_map_path {Q : Touch → Prop} {pps : List Bytes} (f : Bytes → Touch) (a : Acc) (hf : ∀ p, f p = ⟨a, .path p⟩)
     (h : ∀ pp ∈ pps, ∀ a, Q ⟨a, .path pp⟩) : ∀ t ∈ pps.map f, Q t := by
@@ -625,6 +618,9 @@ theorem plan_completeMultipartUpload (b k uid : Bytes) (parts : Option (List Int
   cases parts with
   | none => exact forall_nil
   | some ps =>
+    by_cases hemp : ps.isEmpty = true
+    · simp only [hemp, if_true]; exact forall_nil
+    simp only [hemp, Bool.false_eq_true, if_false]
     cases hpu : parseUuid uid with
     | none => exact forall_nil
     | some u =>
@@ -644,8 +640,11 @@ theorem plan_completeMultipartUpload (b k uid : Bytes) (parts : Option (List Int
         intro n hn pp hpp a
         exact L_name hr (good_uploadPartName hu n)
           ⟨u, hpu, .inr (.inr (.inr (.inr (.inr ⟨n, by simpa using hn, rfl⟩))))⟩ hpp
-      have hchk := completeCheck_allowed e enc hr he u ps hparts 0 _ [] hp1 (by simp)
-      cases hcc : completeCheck e u ps 0 (([] : List Touch) ++ [rd info]) [] with
+      by_cases hoo : outOfOrder ps = true
+      · simp only [hoo, if_true]; exact hp1
+      simp only [hoo, Bool.false_eq_true, if_false]
+      have hchk := completeCheck_allowed e enc hr he u ps hparts _ [] hp1 (by simp)
+      cases hcc : completeCheck e u ps (([] : List Touch) ++ [rd info]) [] with
       | error pl => exact hchk.1 pl hcc
       | ok r =>
         obtain ⟨t2, pps⟩ := r
